@@ -4,7 +4,7 @@ CFG = {'level': 'exploration',
  'design_ref': '5.4 C04',
  'technique': 'runtime monitoring: reference-model oracle (regexp grammar + math/big precedence) and order-axiom monitors over generated strings, '
               'pairs, triples',
- 'level_text': 'Every exported semver function is run on ~1.5e6 (quick) / 6e7 (thorough) generated strings, neighbourhood pairs and triples and each '
+ 'level_text': 'Every exported semver function is run on ~1.5e6 (quick) / 2.4e8 (thorough) generated strings, neighbourhood pairs and triples and each '
                'result is compared with an independent model; held-on-observed only, no universal claim.',
  'level_note': "Trusts the regexp transcription of the documented grammar, math/big, and that the generator's neighbourhoods reach the interesting "
                'orderings (coverage floors enforce the key ones).',
